@@ -196,16 +196,16 @@ pub fn max_witness(shape: &Shape) -> Option<Value> {
 			if e.zero_width() {
 				Value::Rep(*n as u64)
 			} else {
-				Value::List((0..*n).map(|_| max_witness(e).unwrap()).collect())
+				Value::List((0..*n).map(|_| max_witness(e)).collect::<Option<Vec<_>>>()?)
 			},
-		Shape::Tuple(es) => Value::List(es.iter().map(|e| max_witness(e).unwrap()).collect()),
+		Shape::Tuple(es) => Value::List(es.iter().map(max_witness).collect::<Option<Vec<_>>>()?),
 		Shape::Wrap(_, e) => max_witness(e)?,
 		Shape::Duration => Value::List(vec![Value::U(u64::MAX as u128), Value::U(999_999_999)]),
 		Shape::Range(e) | Shape::RangeIncl(e) => Value::List(vec![max_witness(e)?, max_witness(e)?]),
 		Shape::Struct(fs) => Value::List(
 			fs.iter()
-				.map(|f| if f.skip { f.shape.default_value() } else { max_witness(&f.shape).unwrap() })
-				.collect(),
+				.map(|f| if f.skip { Some(f.shape.default_value()) } else { max_witness(&f.shape) })
+				.collect::<Option<Vec<_>>>()?,
 		),
 		Shape::Enum(vs) => {
 			let mut best: Option<(usize, usize)> = None;
@@ -224,8 +224,8 @@ pub fn max_witness(shape: &Shape) -> Option<Value> {
 				vs[i]
 					.fields
 					.iter()
-					.map(|f| if f.skip { f.shape.default_value() } else { max_witness(&f.shape).unwrap() })
-					.collect(),
+					.map(|f| if f.skip { Some(f.shape.default_value()) } else { max_witness(&f.shape) })
+					.collect::<Option<Vec<_>>>()?,
 			)
 		},
 		_ => return None,
